@@ -53,6 +53,14 @@ func vhFrameOf(corr int32, body []byte) []byte {
 }
 
 // vhFetchResponse builds a fetch response (v2, v5 or v10) for one topic/partition with the given raw message set.
+// knobs of vhFetchResponse (package level so that the many callers keep their signature): the number of aborted
+// transactions listed for the partition (v4+; -1: null) and whether a top-level error comes with an empty topic
+// array, as brokers send it
+var (
+	vhFetchAborted  = -1
+	vhFetchNoTopics = false
+)
+
 func vhFetchResponse(corr int32, version int, topErr int16, topic string, partition int32, code int16, hwm int64, msgSet []byte) []byte {
 	w := &vhW{}
 	w.i32(0) // throttle (v1+)
@@ -60,13 +68,27 @@ func vhFetchResponse(corr int32, version int, topErr int16, topic string, partit
 		w.i16(topErr)
 		w.i32(0) // session id
 	}
+	if vhFetchNoTopics && version >= 7 {
+		w.i32(0)
+		return vhFrameOf(corr, w.b)
+	}
 	w.i32(1)
 	w.str(topic)
 	w.i32(1)
 	w.i32(partition)
 	w.i16(code)
 	w.i64(hwm)
-	if version >= 4 {
+	if version >= 4 && vhFetchAborted >= 0 {
+		w.i64(hwm)
+		if version >= 5 {
+			w.i64(0)
+		}
+		w.i32(int32(vhFetchAborted))
+		for i := 0; i < vhFetchAborted; i++ {
+			w.i64(int64(7000 + i)) // producer id
+			w.i64(int64(i))        // first offset
+		}
+	} else if version >= 4 {
 		w.i64(hwm) // last stable offset
 		if version >= 5 {
 			w.i64(0) // log start offset
